@@ -53,6 +53,9 @@ def oracle(case, out):
 
 
 def oracle_one(raw, out):
+    if out == "other:SharedMutableState":
+        return (f"APDU {raw.hex()}: decoding the same octets again after the first result was modified gives a different object "
+                "(decoded objects share mutable state), so the decoded PDU does not re-encode to the received octets")
     if not out.startswith("ok "):
         return None
     body, cls, enc, cl = L.split_dec(out)
